@@ -100,3 +100,38 @@ Example C21_example :
   = [MsRegistered; MsFail; MsNeed 1; MsAlreadyVoted 1; MsFail; MsFail; MsFail; MsExecuted 1 5 7; MsAlreadyExecuted;
      MsNeed 1; MsFail; MsExecuted 1 5 7; MsNeed 1].
 Proof. vm_compute. reflexivity. Qed.
+
+(* ---- the executed transfer carries a valid threshold signature of the wallet ----
+   Idealised BLS as in C34 (Model/DKG.v): scalars in a field F, signatures in G1, public keys in G2,
+   a bilinear map e, sign sk m = sk * H m, verify pk m sig = (e sig g2 == e (H m) pk).
+   Link assumption, stated in the hypotheses: the wallet key is sk, the wallet requires
+   T = size (sk :: cs) votes, and the signer with threshold id i in 1..n holds the value at i of the
+   polynomial sk :: cs (what BLS0GenerateThresholdKeyShares hands out; the engine runs on such keys
+   and checks every executed transfer with the real VerifySignature under the wallet key).
+   Then whenever a request releases the transfer, in any history, the proposal's votes are T
+   distinct share ids, the signature recovered from their share signatures on the proposal's
+   transfer (Lagrange interpolation, dkg_recover) is the wallet key's signature on exactly that
+   transfer, and it verifies under the wallet's public key. *)
+From mathcomp Require Import all_ssreflect ssralg poly.
+From ZC Require Import Model.DKG Proof.ThresholdSig Proof.MultisigSig.
+Import GRing.Theory.
+Local Open Scope ring_scope.
+
+Theorem C21_executed_transfer_signature_valid :
+  forall (F : fieldType) (G1 G2 GT : lmodType F) (g2 : G2) (M : Type) (Hm : M -> G1) (e : G1 -> G2 -> GT),
+    (forall a x y, e (a *: x) y = a *: e x y) -> (forall a x y, e x (a *: y) = a *: e x y) ->
+  forall (msg : Z -> Z -> Z -> M) (n : nat), (forall k, (0 < k <= n)%N -> k%:R != 0 :> F) ->
+  forall (sk : F) (cs : seq F),
+  forall ops signer now wallet pid to amount wf sig_ok rec st' f t a,
+    ms_step (fst (ms_run ms_init ops)) (MsVote signer now wallet pid to amount wf sig_ok rec) = (st', MsExecuted f t a) ->
+    forall w p', ms_wallet_get wallet (ms_wallets st') = Some w ->
+                 ms_prop_get (wallet, pid) (ms_props st') = Some p' ->
+    (forall s tid, In (s, tid) (mw_signers w) -> (0 < tid <= Z.of_nat n)%Z) ->
+    mw_required w = Z.of_nat (size (sk :: cs)) ->
+    let S := map Z.to_nat (mp_votes p') in
+    let m := msg f t a in
+    f = wallet /\ t = mp_to p' /\ a = mp_amount p' /\
+    dkg_recover (thr_share_sigs Hm (sk :: cs) S m) = Some (dkg_sign Hm sk m) /\
+    dkg_verify g2 Hm e (dkg_pub g2 sk) m (dkg_sign Hm sk m).
+Proof. exact ms_executed_signature_valid. Qed.
+Print Assumptions C21_executed_transfer_signature_valid.
